@@ -34,7 +34,7 @@ import (
 //@ ghost field (Node).idx   int
 
 //@ pure func listInv(l *List[T]) bool =
-//@     l != nil && len(l.elems) >= 0 &&
+//@     l != nil && len(l.elems) >= 0 && l.root.owner == nil &&
 //@     (l.root.next == nil ==> len(l.elems) == 0 && l.root.prev == nil) &&
 //@     (l.root.next != nil ==> l.root.next == ite(len(l.elems) > 0, l.elems[0], &l.root) &&
 //@                             l.root.prev == ite(len(l.elems) > 0, l.elems[len(l.elems)-1], &l.root)) &&
@@ -166,6 +166,7 @@ import (
 //@   ghost backing(f.arr).owner := ite(f != nil && n != nil && !f.withoutSearch, f, backing(f.arr).owner)
 //@   ensures  inv:    f != nil ==> fileInv(f) && sortedF(f)
 //@   ensures  elems:  f != nil && n != nil ==> f.l.elems == old(f.l.elems) ++ [n]
+//@   ensures  arrback: f != nil ==> backing(f.arr) == old(backing(f.arr)) || fresh(backing(f.arr))
 //@   ensures  noop:   (f == nil || n == nil) ==> (f != nil ==> f.l.elems == old(f.l.elems)) && memsame(*Node[model.File])
 //@   ensures  nodes:  forall m *Node[model.File] :: m != n && m.owner == old(m.owner) && (f == nil || old(m.owner) != &f.l) && (f == nil || m != &f.l.root) ==>
 //@                       m.next == old(m.next) && m.prev == old(m.prev)
@@ -174,6 +175,95 @@ import (
 //@   ensures  files:  forall g *file :: g != f ==> g.arr == old(g.arr)
 //@   ensures  mem:    f != nil ==> memframe(f.arr)
 //@   ensures  owners: forall b *backing :: (f == nil || b != backing(f.arr)) ==> b.owner == old(b.owner)
+
+// ---------------------------------------------------------------------------
+// Object pools (pool.go).  TRUSTED per instantiation: the pool's own bookkeeping (a free list under a
+// mutex) is not verified; what callers rely on is stated here and what they owe is checked at every call:
+// only objects that are linked nowhere (ghost owner nil, empty list) may be released.
+
+//@ ghost field (file).gtx  *Transaction
+//@ ghost field (file).gkey string
+//@ ghost field (Node).linkOf *Node[T]
+//@ ghost field (Transaction).gid string
+
+//@ pure func zeroFile(f *file) bool =
+//@     f.l.root.next == nil && f.l.root.prev == nil && f.l.root.link == nil && f.l.root.v.Seq == 0 && len(f.l.elems) == 0 &&
+//@     backing(f.arr) == nil && len(f.arr) == 0 && cap(f.arr) == 0 && !f.withoutSearch
+
+//@ func (*Pool[file]).Acquire
+//@   trusted
+//@   requires nn: p != nil
+//@   ensures  r:  result != nil && toplevel(result) && result.gtx == nil && zeroFile(result)
+//@   ensures  noowner: result.l.root.owner == nil && forall m *Node[model.File] :: m.owner != &result.l
+
+//@ func (*Pool[file]).Release
+//@   trusted
+//@   requires nn:       p != nil
+//@   requires unlinked: forall i int :: 0 <= i && i < len(els) ==> els[i] != nil && els[i].gtx == nil && len(els[i].l.elems) == 0
+//@   modifies file.arr, file.withoutSearch, Node[model.File].next, Node[model.File].prev
+//@   ensures  files:    forall g *file :: g.gtx != nil ==> g.arr == old(g.arr) && g.withoutSearch == old(g.withoutSearch) &&
+//@                         g.l.root.next == old(g.l.root.next) && g.l.root.prev == old(g.l.root.prev)
+//@   ensures  nodes:    forall m *Node[model.File] :: toplevel(m) ==> m.next == old(m.next) && m.prev == old(m.prev)
+
+//@ pure func zeroNode(n *Node[model.File]) bool =
+//@     n.next == nil && n.prev == nil && n.link == nil && n.owner == nil && n.linkOf == nil &&
+//@     n.v.Seq == 0 && n.v.Key == "" && n.v.TxId == "" && n.v.ContentId == ""
+
+//@ func (*Pool[Node[model.File]]).Acquire
+//@   trusted
+//@   requires nn: p != nil
+//@   ensures  r:  result != nil && toplevel(result) && zeroNode(result)
+
+// Release(link, n): both nodes are zeroed; every other node, and every File value that is not one of
+// the two nodes' values, is untouched.
+//@ func (*Pool[Node[model.File]]).Release
+//@   trusted
+//@   requires nn:       p != nil
+//@   requires two:      len(els) == 2 && els[0] != nil && els[1] != nil
+//@   requires unlinked: els[0].owner == nil && els[1].owner == nil && toplevel(els[0]) && toplevel(els[1])
+//@   modifies Node[model.File].next, Node[model.File].prev, Node[model.File].link, Node[model.File].linkOf, model.File.*
+//@   ensures  zeroed:   zeroNode(els[0]) && zeroNode(els[1])
+//@   ensures  nodes:    forall m *Node[model.File] :: m != els[0] && m != els[1] ==> m.next == old(m.next) && m.prev == old(m.prev) &&
+//@                         m.link == old(m.link) && m.linkOf == old(m.linkOf) &&
+//@                         m.v.Seq == old(m.v.Seq) && m.v.Key == old(m.v.Key) && m.v.TxId == old(m.v.TxId) && m.v.ContentId == old(m.v.ContentId)
+//@   ensures  values:   forall g *model.File :: g != &els[0].v && g != &els[1].v ==>
+//@                         g.Seq == old(g.Seq) && g.Key == old(g.Key) && g.TxId == old(g.TxId) && g.ContentId == old(g.ContentId)
+
+// ---------------------------------------------------------------------------
+// Per-transaction version store (transaction.go): key -> version list.
+
+//@ pure func keyedF(f *file) bool = forall i int :: 0 <= i && i < len(f.l.elems) ==> f.l.elems[i].v.Key == f.gkey
+//@ pure func txFileOk(tx *Transaction, k string) bool =
+//@     tx.store[k] != nil && toplevel(tx.store[k]) && tx.store[k].gtx == tx && tx.store[k].gkey == k &&
+//@     fileInv(tx.store[k]) && sortedF(tx.store[k]) && positiveF(tx.store[k]) && keyedF(tx.store[k]) &&
+//@     tx.store[k].withoutSearch == tx.WithoutSearch
+//@ pure func txInv(tx *Transaction) bool =
+//@     tx != nil && forall k string :: has(tx.store, k) ==> txFileOk(tx, k)
+
+// PushBack appends a version to the list of its key, creating the list on first use.
+//@ func (*Transaction).PushBack
+//@   requires inv:    txInv(tx)
+//@   requires node:   n != nil && toplevel(n) && n.owner == nil && n.v.Seq > 0
+//@   requires order:  has(tx.store, n.v.Key) && len(tx.store[n.v.Key].l.elems) > 0 ==>
+//@                       tx.store[n.v.Key].l.elems[len(tx.store[n.v.Key].l.elems)-1].v.Seq < n.v.Seq
+//@   modifies Node[model.File].next, Node[model.File].prev, Node[model.File].owner, Node[model.File].idx, List[model.File].elems,
+//@            file.arr, file.withoutSearch, file.gtx, file.gkey, mem[*Node[model.File]], backing.owner, Transaction.store, map[string]*file
+//@   ghost tx.store[n.v.Key].gtx  := tx
+//@   ghost tx.store[n.v.Key].gkey := n.v.Key
+//@   ensures  inv:    txInv(tx)
+//@   ensures  has:    has(tx.store, n.v.Key)
+//@   ensures  first:  !old(has(tx.store, n.v.Key)) ==> len(tx.store[n.v.Key].l.elems) == 1 && tx.store[n.v.Key].l.elems[0] == n
+//@   ensures  more:   old(has(tx.store, n.v.Key)) ==> tx.store[n.v.Key] == old(tx.store[n.v.Key]) && tx.store[n.v.Key].l.elems == old(tx.store[n.v.Key].l.elems) ++ [n]
+//@   ensures  keys:   forall k string :: k != n.v.Key ==> has(tx.store, k) == old(has(tx.store, k)) && (has(tx.store, k) ==> tx.store[k] == old(tx.store[k]))
+//@   ensures  nodes:  forall m *Node[model.File] :: m != n && m.owner == old(m.owner) && old(m.owner) != &tx.store[n.v.Key].l && m != &tx.store[n.v.Key].l.root ==>
+//@                       m.next == old(m.next) && m.prev == old(m.prev)
+//@   ensures  ghosts: forall m *Node[model.File] :: m != n ==> m.owner == old(m.owner) && m.idx == old(m.idx)
+//@   ensures  lists:  forall k *List[model.File] :: k != &tx.store[n.v.Key].l ==> k.elems == old(k.elems)
+//@   ensures  files:  forall g *file :: g != tx.store[n.v.Key] ==> g.arr == old(g.arr) && g.withoutSearch == old(g.withoutSearch) && g.gtx == old(g.gtx) && g.gkey == old(g.gkey)
+//@   ensures  mem:    memframe(tx.store[n.v.Key].arr)
+//@   ensures  owners: forall b *backing :: b != backing(tx.store[n.v.Key].arr) ==> b.owner == old(b.owner)
+//@   ensures  txs:    forall t *Transaction :: t != tx ==> t.store == old(t.store)
+//@   ensures  maps:   forall mp map[string]*file :: mp != tx.store && mp != nil ==> forall k string :: has(mp, k) == old(has(mp, k)) && mp[k] == old(mp[k])
 
 //@ func (*file).PopBack
 //@   requires inv:    f != nil ==> fileInv(f) && sortedF(f)
